@@ -3,7 +3,7 @@
     datagram and every TCP segment (SYN and SACK probes); the correspondence additionally verifies the emitted bytes
     with an independent receiver-side implementation. *)
 From Coq Require Import List ZArith Bool.
-From TR Require Import Lib.Bytes Wire.Decode Wire.Build Drv.Drivers Spec.C06 Proofs.BuildProofs Proofs.BuildProofs2 Eng.Engine Eng.Parallel Eng.Timed Proofs.EngParallel Proofs.EngCorollaries Spec.C03.
+From TR Require Import Lib.Bytes Wire.Decode Wire.Build Drv.Drivers Spec.C06 Proofs.BuildProofs Proofs.BuildProofs2 Eng.Engine Eng.Parallel Eng.Timed Proofs.EngParallel Proofs.EngCorollaries Spec.C03 Generated.GoIds Proofs.GoTieIds.
 Import ListNotations.
 Open Scope Z_scope.
 
@@ -61,6 +61,18 @@ Theorem C06_icmp6_checksum src dst echo_id ttl :
   verifies (put16 2 (cksum body0 (pseudo src dst 58 (len body0))) body0) (pseudo src dst 58 (len body0)) = true.
 Proof. exact (@icmp6_body_checksum src dst echo_id ttl). Qed.
 Print Assumptions C06_icmp6_checksum.
+
+(** tie kind A, regenerated on every run by tools/goextract/exprs.go: getNextPacketIDAndSeqNum as it stands in the source gives the IP-ID and sequence number the driver model puts on the wire (default and Paris mode) *)
+Theorem C06_tcp_ids_tied c ttl rnd : 0 <= ttl < 256 ->
+  go_tcp_tcpDriver_getNextPacketIDAndSeqNum ttl (c_paris c) rnd (c_base_id c) (c_seq c)
+  = ((if c_paris c then 41821 else (c_base_id c + ttl) mod 65536), (if c_paris c then rnd else c_seq c)).
+Proof. exact (@go_tcp_ids c ttl rnd). Qed.
+Print Assumptions C06_tcp_ids_tied.
+
+(** the IP identification expression of the UDP/IPv4 probe builder is [udp4_id] *)
+Theorem C06_udp4_id_tied ttl : 0 <= ttl < 256 -> go_udp4_ip_id ttl = udp4_id ttl.
+Proof. exact (@go_udp4_id ttl). Qed.
+Print Assumptions C06_udp4_id_tied.
 
 (** all interleavings of the parallel engine: the TTLs handed to SendProbe are first, first+1, ... —
     at most one probe per TTL, in increasing order *)
